@@ -37,7 +37,8 @@ def describe(tier):
                 f"{len(MODAL_SPELLINGS)} modal-mark and {len(PREFIX_SPELLINGS)} prefix-operator spellings x all {len(MENU)} menu expressions x all "
                 f"16 whitespace pairs, and all bare indicators; (B) two parts (+ optional bare final mark in 3 spellings): all 18x18 spelling "
                 "pairs x all 4x4 outcome pairs, and all menu x menu pairs x whitespace pairs; (C) three parts (+ optional bare mark): all 4^3 "
-                "outcome triples and all 5^3 lexer-stress triples with rotating spellings; (H) every ordered pair (A; B) of an "
+                "outcome triples and all 5^3 lexer-stress triples with rotating spellings; (D) four and five parts: all 4^4 and all 4^5 outcome tuples (same mark repeated / all "
+                "different, rotating whitespace, optional bare final mark); (H) every ordered pair (A; B) of an "
                 f"{len(HISTORY_MENU)}-expression menu evaluated one after the other (hidden-state / history dependence); each x "
                 f"{b['cers']} content evaluation results that permute which key is FULFILLED/UNFULFILLED/UNKNOWN. Oracle: (1) the "
                 "unresolved parser's tokens are exactly (indicator as written, condition text incl. whitespace) in order; (2) the resolved "
@@ -99,6 +100,19 @@ def _cases_C():
                     yield parts
 
 
+def _cases_D():
+    """four and five parts: all outcome tuples, the same modal mark repeated / all different"""
+    k = 0
+    for n in (4, 5):
+        for conds in itertools.product(OUTCOME_MENU, repeat=n):
+            k += 1
+            marks = [MODAL_SPELLINGS[(k + 6 * i) % 18] for i in range(n)] if k % 2 else [MODAL_SPELLINGS[k % 18]] * n
+            parts = [(m, WS[(k + i) % 4], c, WS[(k + 2 * i) % 4]) for i, (m, c) in enumerate(zip(marks, conds))]
+            if k % 3 == 0:
+                parts.append((MODAL_SPELLINGS[(k * 7) % 18], None, None, None))
+            yield parts
+
+
 def text_of(parts):
     return "".join(ind + ("" if cond is None else w1 + cond + w2) for ind, w1, cond, w2 in parts)
 
@@ -113,6 +127,8 @@ def plan(tier, seed):
             items.append({"fam": "B", "cer": c, "part": p, "parts": 16, "ws_pairs": b["ws_pairs"]})
         for p in range(4):
             items.append({"fam": "C", "cer": c, "part": p, "parts": 4})
+        for p in range(4):
+            items.append({"fam": "D", "cer": c, "part": p, "parts": 4})
         for p in range(len(HISTORY_MENU)):
             items.append({"fam": "H", "cer": c, "first": p})
     return items
@@ -269,7 +285,7 @@ def run_item(item):
         for second in HISTORY_MENU:
             _do(r, _parts_of_menu_entry(second), item["cer"], history=(first,))
         return r
-    gen = {"A": _cases_A, "B": lambda: _cases_B(item.get("ws_pairs", 4)), "C": _cases_C}[fam]()
+    gen = {"A": _cases_A, "B": lambda: _cases_B(item.get("ws_pairs", 4)), "C": _cases_C, "D": _cases_D}[fam]()
     for i, parts in enumerate(gen):
         if i % item["parts"] != item["part"]:
             continue
